@@ -309,11 +309,15 @@ class Model:
             return ("d", "f", "T") if (self.n >= 4 and len(self.owners) >= 3) else ("d", "f", "1", "T")
         return ("d", "f", "T") if self.n >= 4 else ("d", "f", "1", "T")      # quick tier
 
-    def field_sets(self, c, full):
-        """Keyword sets used for ``update(cls, **fields)`` / ``ns.update(**fields)`` on class c."""
+    # keywords that are no fields but name attributes of every namespace class: unknown fields all the same
+    ATTR_NAMES = ("as_dict", "_FIELDS", "update", "get_fields", "get_render_cls", "__doc__")
+
+    def field_sets(self, c, full, via_args=False):
+        """Keyword sets used for ``ns.update(**fields)`` / (via_args) ``args.update(cls, **fields)`` on class c."""
         if not self.nf[c]:
             return [(), (("a", "1"),)]
         out = [()] + [(("a", t),) for t in self.a_tokens(full)] + [(("zz", "1"),)]
+        out += [((name, "1"),) for name in (self.ATTR_NAMES[:2] if (via_args and not full) else self.ATTR_NAMES)]
         if self.nf[c] == 2:
             out += [(("b", "1"),), (("a", "1"), ("b", "1")), (("b", "d"),)]
             if full:
@@ -330,6 +334,7 @@ class Model:
                     ops.append(("mk", c, (), (("a", t),), sub))
                 ops.append(("mk", c, ("1",), (("a", "T"),), sub))         # multiple values
                 ops.append(("mk", c, (), (("zz", "1"),), sub))            # unknown field
+                ops.append(("mk", c, (), (("as_dict", "1"),), sub))       # unknown field naming an attribute
                 if self.nf[c] == 1:
                     ops.append(("mk", c, ("1", "T"), (), sub))            # too many values
                 else:
